@@ -60,33 +60,34 @@ GROUPS = {
 
 # closure bodies extracted verbatim into a function so that they can be put under contract
 EXTRACTS = [
-    dict(file="weechess-engine/src/uci.rs", marker=".filter_map(|m| {", out="uci_extracted.rs",
+    dict(file="weechess-engine/src/uci.rs", marker=".filter_map(|m| {", out="uci_extracted.rs", substitute="nothing (a closure body wrapped as a function)",
          header="pub fn uci_move_token(m: &&str) -> Option<MoveQuery> {"),
     # the `bestmove` line of the writer thread in Search::spawn (closure body: cannot be called); `println!` is bound to a buffer sink
-    dict(file="weechess-engine/src/uci.rs", marker="if let Some(m) = best_line.first() {", out="uci_bestmove_extracted.rs",
+    dict(file="weechess-engine/src/uci.rs", marker="if let Some(m) = best_line.first() {", out="uci_bestmove_extracted.rs", substitute="println! -> byte sink",
          header="pub fn uci_print_bestmove(m: &Move) {"),
     # the head of Searcher::analyze_iterative (everything before the iterative-deepening loop; the loop reaches rayon, which crashes the
     # Kani compiler): search memory taken over or created, root hash computed and recorded
     dict(kind="fn_range", file="weechess-engine/src/searcher.rs", scopes=["impl Searcher"], fn="analyze_iterative",
-         marker="let max_depth = max_depth.unwrap_or(usize::MAX);", end_marker="for depth in 0..max_depth {", out="analyze_iterative_head_extracted.rs",
+         marker="let max_depth = max_depth.unwrap_or(usize::MAX);", end_marker="for depth in 0..max_depth {", out="analyze_iterative_head_extracted.rs", substitute="ZobristHasher::hash, StateHistory::{lookup,increment} -> contract stubs",
          header="#[allow(unused_mut, unused_variables, unused_assignments)]\npub fn analyze_iterative_head(game_state: State, rng: RandomNumberGenerator, max_depth: Option<usize>, "
                 "previous_artifact: Option<SearchArtifact>) -> (ZobristHasher, TranspositionTableAccess, StateHistory, Hash) {",
          footer="let _pin_type: &Option<Move> = &best_mv; // the local's type is inferred from the loop, which is not extracted\n"
                 "(hasher, transpositions, state_history, game_state_hash)\n"),
     # the FEN writer: whole body of `<Fen as IntoNotation<State>>::into_notation`, compiled in the harness with `write!` bound to a byte sink
     dict(kind="fn_body", file="weechess-core/src/notation.rs", scopes=["mod fen", "impl IntoNotation<State> for Fen"], fn="into_notation",
-         out="fen_writer_extracted.rs", header="pub fn fen_writer_body(value: &State, f: &mut Sink) -> std::fmt::Result {"),
+         out="fen_writer_extracted.rs", substitute="write! -> byte sink; Display for PieceIndex/Square -> their contracts; std Display for integers -> model / abstract",
+         header="pub fn fen_writer_body(value: &State, f: &mut Sink) -> std::fmt::Result {"),
     # the argument parser of the `go` arm of the UCI command loop (between the two marker lines), as a function of the argument tokens
     dict(kind="fn_range", file="weechess-engine/src/uci.rs", scopes=["impl Client"], fn="exec",
-         marker="let mut search_time: Option<f64> = None;", end_marker="// TODO: Do we always want to pick a book move?", out="uci_go_args_extracted.rs",
+         marker="let mut search_time: Option<f64> = None;", end_marker="// TODO: Do we always want to pick a book move?", out="uci_go_args_extracted.rs", substitute="println! -> byte sink",
          header="#[allow(unused_mut, unused_variables, unused_assignments)]\npub fn uci_go_args(args: &[&str]) -> (Option<f64>, Option<usize>) {",
          footer="(search_time, search_depth)\n"),
     # the three slider look-ups, verbatim, compiled in the harness against abstract tables (kani/c09_lookup.rs)
     dict(kind="fns", file="weechess-core/src/attacks.rs", scopes=["impl AttackGenerator"],
-         fns=["compute_bishop_attacks", "compute_rook_attacks", "compute_queen_attacks"], out="attack_lookups_extracted.rs",
+         fns=["compute_bishop_attacks", "compute_rook_attacks", "compute_queen_attacks"], out="attack_lookups_extracted.rs", substitute="mod data (slide masks, magics, widths, filled tables) -> abstract symbolic tables",
          header="impl LookUps {", footer="}"),
     # the `ucinewgame` arm of the UCI command loop, as a function over the two loop-local variables it can touch
-    dict(file="weechess-engine/src/uci.rs", marker='Some((&"ucinewgame", _)) => {', out="ucinewgame_extracted.rs",
+    dict(file="weechess-engine/src/uci.rs", marker='Some((&"ucinewgame", _)) => {', out="ucinewgame_extracted.rs", substitute="the concrete type Search -> a type parameter with wait_cancel's signature",
          header="#[allow(unused_mut, unused_variables, unused_assignments)]\npub fn ucinewgame_arm<S: SearchLike>(mut current_search: Option<S>, "
                 "mut previous_artifact: Option<S::Artifact>) -> (Option<S>, Option<S::Artifact>) {",
          footer="(current_search, previous_artifact)\n"),
@@ -95,12 +96,12 @@ EXTRACTS = [
     # against a sequential model of std::sync::RwLock (kani/c15_routing.rs)
     dict(kind="fns", file="weechess-engine/src/searcher.rs", scopes=["impl TranspositionTableAccess"],
          items=["struct TranspositionTableAccess"], fns="*", exclude=["small", "iter_moves"],
-         require=["with_tables", "insert", "find", "entries", "max_entries"], out="tt_access_extracted.rs",
+         require=["with_tables", "insert", "find", "entries", "max_entries"], out="tt_access_extracted.rs", substitute="std::sync::RwLock -> sequential RefCell model; TranspositionTable methods -> recording contract stubs",
          header="#[allow(dead_code)]\nimpl TranspositionTableAccess {", footer="}"),
     # the FEN reader after its regex gate: everything from the first field parser call to the end of the function,
     # with `groups` an index-by-number view of the six captured fields (same Index<usize, Output = str> as regex::Captures)
     dict(kind="fn_tail", file="weechess-core/src/notation.rs", scopes=["mod fen", "impl TryFromNotation<State> for Fen"],
-         fn="try_from_notation", marker="let board = Board::try_parse(&groups[1])?;", out="fen_reader_extracted.rs",
+         fn="try_from_notation", marker="let board = Board::try_parse(&groups[1])?;", out="fen_reader_extracted.rs", substitute="regex::Captures -> an index-by-number view of the six captured fields",
          header="pub fn fen_reader_after_regex(groups: &Groups<'_>) -> Result<State, ()> {"),
 ]
 
